@@ -32,10 +32,6 @@ func inBox(b orb.Bound, p orb.Point) bool {
 	return p[0] >= b.Min[0] && p[0] <= b.Max[0] && p[1] >= b.Min[1] && p[1] <= b.Max[1]
 }
 
-func inBoxTol(b orb.Bound, p orb.Point, tol float64) bool {
-	return p[0] >= b.Min[0]-tol && p[0] <= b.Max[0]+tol && p[1] >= b.Min[1]-tol && p[1] <= b.Max[1]+tol
-}
-
 func finite(p orb.Point) bool {
 	return !math.IsNaN(p[0]) && !math.IsNaN(p[1]) && !math.IsInf(p[0], 0) && !math.IsInf(p[1], 0)
 }
@@ -65,7 +61,8 @@ func copyRing(r orb.Ring) orb.Ring {
 	return out
 }
 
-func closed(r orb.Ring) bool { return len(r) > 0 && bitEq(r[0], r[len(r)-1]) }
+// closed: first vertex equals last (as numbers: -0 equals 0, as in orb).
+func closed(r orb.Ring) bool { return len(r) > 0 && r[0] == r[len(r)-1] }
 
 // evenOdd: crossing-number parity of the closed polyline r at q (the last
 // vertex is joined to the first). Only called for q farther than the margin
@@ -125,6 +122,53 @@ func scaleOf(box orb.Bound, g orb.Geometry) float64 {
 	return s
 }
 
+// tols are the tolerances of one case. None carries an absolute length unit
+// (a case and its image under x -> 2^k x are judged alike):
+//
+//	slack[d]  how far outside the box an output ring vertex may lie on axis d:
+//	          64 eps * largest |box coordinate| of that axis (the last clip pass
+//	          interpolates between two values inside the box);
+//	margin    membership is only asked at points farther than this from the
+//	          input ring and the box sides (half of it from the output ring):
+//	          1e-6 * larger box side + 1000 eps * largest |coordinate| (the float
+//	          even-odd test itself is only reliable that far from an edge);
+//	lineSmall 1e-9 * largest |coordinate|: a clipped line piece below twice this
+//	          length is contact, not content (C07 judges line precision).
+type tols struct {
+	scale     float64
+	slack     [2]float64
+	margin    float64
+	lineSmall float64
+}
+
+func tolsOf(box orb.Bound, g orb.Geometry) tols {
+	m := scaleOf(box, g)
+	t := tols{scale: m, lineSmall: 1e-9 * m}
+	for d := 0; d < 2; d++ {
+		t.slack[d] = exact.ClipK * exact.ClipEps * math.Max(math.Abs(box.Min[d]), math.Abs(box.Max[d]))
+	}
+	t.margin = 1e-6*math.Max(box.Max[0]-box.Min[0], box.Max[1]-box.Min[1]) + 1000*exact.ClipEps*m
+	return t
+}
+
+func (t tols) inBox(b orb.Bound, p orb.Point) bool {
+	return p[0] >= b.Min[0]-t.slack[0] && p[0] <= b.Max[0]+t.slack[0] && p[1] >= b.Min[1]-t.slack[1] && p[1] <= b.Max[1]+t.slack[1]
+}
+
+// shoelaceAt is shoelace with coordinates taken relative to o (differences of
+// floats are rounded relative to themselves, so the result does not lose
+// accuracy far from the origin); also returns the perimeter.
+func shoelaceAt(r orb.Ring, o orb.Point) (area, abs, perim float64) {
+	for i := 0; i < len(r); i++ {
+		a, b := r[i], r[(i+1)%len(r)]
+		ax, ay, bx, by := a[0]-o[0], a[1]-o[1], b[0]-o[0], b[1]-o[1]
+		area += ax*by - bx*ay
+		abs += math.Abs(ax*by) + math.Abs(bx*ay)
+		perim += math.Hypot(bx-ax, by-ay)
+	}
+	return area / 2, abs / 2, perim
+}
+
 // queries derives the query points of a case from its seed (splitmix64):
 // uniformly in the box; the callers skip those within the margin of anything.
 func queries(box orb.Bound, seed uint64, n int) []orb.Point {
@@ -149,24 +193,24 @@ func deepInBox(box orb.Bound, q orb.Point, m float64) bool {
 
 // ---------------------------------------------------------------- the ring oracle
 
+// worst observed |A-(A1+A2)| / tolerance (statistics only)
+var worstArea float64
+
 type ringInfo struct {
 	cut   bool // the output vertex list differs from the input's (the non-trivial rule)
 	empty bool // nothing was returned
 }
 
-// checkRing judges clip.Ring(box, ring).
-//
-// Tolerances: tol = 1e-9*(1+scale) for "vertex in the box up to rounding";
-// margin = 1e-6*(1+scale): membership is only asked at points farther than the
-// margin from the input ring, from the box sides and (half the margin) from
-// the output ring; areas: |A - (A1+A2)| <= 1e-9 * (sum of |shoelace terms| of
-// the three rings) + 1e-13*scale^2 (intersection points carry a rounding error
-// of a few ulp of the input scale, whatever the size of the clipped piece);
-// "bound disjoint from the box" means disjoint by more than tol.
-func checkRing(box orb.Bound, ring orb.Ring, qs []orb.Point, splitX, splitY, scale float64) (ringInfo, error) {
+// checkRing judges clip.Ring(box, ring) with the tolerances of tols. Areas:
+// |A - (A1+A2)| <= 1e-12 * (sum of |shoelace terms| of the three rings, taken
+// relative to the box corner) + (number of output vertices) * (largest
+// single-intersection bound of the ring's edges)/8 * (box width + height).
+// "Bound disjoint from the box" is demanded for a gap above the largest
+// two-intersection bound of the ring's edges (a smaller gap is contact).
+func checkRing(box orb.Bound, ring orb.Ring, qs []orb.Point, splitX, splitY float64, tl tols) (ringInfo, error) {
 	var info ringInfo
-	tol := 1e-9 * (1 + scale)
-	margin := 1e-6 * (1 + scale)
+	margin := tl.margin
+	gap := exact.PathSmall(ring, true)
 	out := clip.Ring(box, copyRing(ring)) // the input is documented scratch space: hand over a copy
 	info.cut = !samePts(out, ring)
 	info.empty = out == nil
@@ -174,8 +218,8 @@ func checkRing(box orb.Bound, ring orb.Ring, qs []orb.Point, splitX, splitY, sca
 		return info, fmt.Errorf("clip.Ring returned an empty non-nil ring")
 	}
 	for i, p := range out {
-		if !finite(p) || !inBoxTol(box, p, tol) {
-			return info, fmt.Errorf("output vertex %d = %v outside the box %v (tol %g); ring %v -> %v", i, p, box, tol, ring, out)
+		if !finite(p) || !tl.inBox(box, p) {
+			return info, fmt.Errorf("output vertex %d = %v outside the box %v (slack %v); ring %v -> %v", i, p, box, tl.slack, ring, out)
 		}
 	}
 	if !closed(ring) {
@@ -192,7 +236,7 @@ func checkRing(box orb.Bound, ring orb.Ring, qs []orb.Point, splitX, splitY, sca
 		for _, p := range ring {
 			lo, hi = math.Min(lo, p[d]), math.Max(hi, p[d])
 		}
-		if hi < box.Min[d]-tol || lo > box.Max[d]+tol {
+		if hi < box.Min[d]-gap || lo > box.Max[d]+gap {
 			disjoint = true // by more than rounding: a gap far below the ulp of the coordinates is contact
 		}
 	}
@@ -224,7 +268,8 @@ func checkRing(box orb.Bound, ring orb.Ring, qs []orb.Point, splitX, splitY, sca
 	}
 
 	// signed area is additive over a split of the box
-	a, abs := shoelace(out)
+	a, abs, per := shoelaceAt(out, box.Min)
+	single := exact.PathSingle(ring, true)
 	for axis, s := range []float64{splitX, splitY} {
 		if !(s > box.Min[axis] && s < box.Max[axis]) {
 			continue
@@ -234,10 +279,15 @@ func checkRing(box orb.Bound, ring orb.Ring, qs []orb.Point, splitX, splitY, sca
 		b2.Min[axis] = s
 		o1 := clip.Ring(b1, copyRing(ring))
 		o2 := clip.Ring(b2, copyRing(ring))
-		a1, abs1 := shoelace(o1)
-		a2, abs2 := shoelace(o2)
-		if lim := 1e-9*(abs+abs1+abs2) + 1e-13*scale*scale; math.Abs(a-(a1+a2)) > lim {
+		a1, abs1, per1 := shoelaceAt(o1, box.Min)
+		a2, abs2, per2 := shoelaceAt(o2, box.Min)
+		_, _, _ = per, per1, per2
+		lim := 1e-12*(abs+abs1+abs2) + float64(len(out)+len(o1)+len(o2))*single/8*((box.Max[0]-box.Min[0])+(box.Max[1]-box.Min[1]))
+		if math.Abs(a-(a1+a2)) > lim {
 			return info, fmt.Errorf("signed area %v of the clip to %v is not the sum %v + %v of the clips to the halves split at %v=%v (tolerance %g); ring %v", a, box, a1, a2, "xy"[axis:axis+1], s, lim, ring)
+		}
+		if r := math.Abs(a-(a1+a2)) / lim; lim > 0 && r > worstArea {
+			worstArea = r
 		}
 	}
 	return info, nil
@@ -499,57 +549,62 @@ func noEmpty(g orb.Geometry) error {
 
 // vertexCheck: no vertex of the result outside the box (exact for 0-/1-d
 // results and bounds, within tol for rings).
-func vertexCheck(box orb.Bound, g orb.Geometry, tol float64) error {
-	bad := func(p orb.Point, t float64) bool { return !finite(p) || !inBoxTol(box, p, t) }
+func vertexCheck(box orb.Bound, g orb.Geometry, tl tols) error {
+	bad := func(p orb.Point, ringVertex bool) bool {
+		if ringVertex {
+			return !finite(p) || !tl.inBox(box, p)
+		}
+		return !finite(p) || !inBox(box, p)
+	}
 	switch v := g.(type) {
 	case orb.Point:
-		if bad(v, 0) {
+		if bad(v, false) {
 			return fmt.Errorf("point %v outside the box", v)
 		}
 	case orb.MultiPoint:
 		for _, p := range v {
-			if bad(p, 0) {
+			if bad(p, false) {
 				return fmt.Errorf("point %v outside the box", p)
 			}
 		}
 	case orb.LineString:
 		for _, p := range v {
-			if bad(p, 0) {
+			if bad(p, false) {
 				return fmt.Errorf("line vertex %v outside the box", p)
 			}
 		}
 	case orb.MultiLineString:
 		for _, l := range v {
-			if err := vertexCheck(box, l, tol); err != nil {
+			if err := vertexCheck(box, l, tl); err != nil {
 				return err
 			}
 		}
 	case orb.Ring:
 		for _, p := range v {
-			if bad(p, tol) {
+			if bad(p, true) {
 				return fmt.Errorf("ring vertex %v outside the box", p)
 			}
 		}
 	case orb.Polygon:
 		for _, r := range v {
-			if err := vertexCheck(box, r, tol); err != nil {
+			if err := vertexCheck(box, r, tl); err != nil {
 				return err
 			}
 		}
 	case orb.MultiPolygon:
 		for _, p := range v {
-			if err := vertexCheck(box, p, tol); err != nil {
+			if err := vertexCheck(box, p, tl); err != nil {
 				return err
 			}
 		}
 	case orb.Collection:
 		for _, m := range v {
-			if err := vertexCheck(box, m, tol); err != nil {
+			if err := vertexCheck(box, m, tl); err != nil {
 				return err
 			}
 		}
 	case orb.Bound:
-		if bad(v.Min, 0) || bad(v.Max, 0) {
+		if bad(v.Min, false) || bad(v.Max, false) {
 			return fmt.Errorf("bound %v outside the box", v)
 		}
 	}
@@ -648,9 +703,9 @@ func distToRings(g orb.Geometry, q orb.Point) float64 {
 // of g certainly lies in the box (sure) or certainly nothing does (none); both
 // false means it depends on measure-zero contact or cannot be told from the
 // query points.
-func somethingRemains(box orb.Bound, g orb.Geometry, qs []orb.Point, scale float64) (sure, none bool) {
-	tol := 1e-9 * (1 + scale)
-	margin := 1e-6 * (1 + scale)
+func somethingRemains(box orb.Bound, g orb.Geometry, qs []orb.Point, tl tols) (sure, none bool) {
+	tol := tl.lineSmall
+	margin := tl.margin
 	none = true
 	var walk func(g orb.Geometry)
 	walk = func(g orb.Geometry) {
@@ -700,8 +755,7 @@ func somethingRemains(box orb.Bound, g orb.Geometry, qs []orb.Point, scale float
 	return sure, none
 }
 
-func checkGeneric(box orb.Bound, g orb.Geometry, qs []orb.Point, scale float64) error {
-	tol := 1e-9 * (1 + scale)
+func checkGeneric(box orb.Bound, g orb.Geometry, qs []orb.Point, tl tols) error {
 	want := expect(box, g)
 	got := clip.Geometry(box, gen.DeepCopy(g))
 	if ok, why := gen.SameBits(got, want); !ok {
@@ -711,11 +765,11 @@ func checkGeneric(box orb.Bound, g orb.Geometry, qs []orb.Point, scale float64) 
 		if err := noEmpty(got); err != nil {
 			return fmt.Errorf("clip.Geometry(%s) result contains an %v: %s", gen.KindOf(g), err, gen.Canon(got))
 		}
-		if err := vertexCheck(box, got, tol); err != nil {
+		if err := vertexCheck(box, got, tl); err != nil {
 			return fmt.Errorf("clip.Geometry(%s): %v; result %s", gen.KindOf(g), err, gen.Canon(got))
 		}
 	}
-	sure, none := somethingRemains(box, g, qs, scale)
+	sure, none := somethingRemains(box, g, qs, tl)
 	if got == nil && sure {
 		return fmt.Errorf("clip.Geometry(%s) = nil although part of the input lies in the box %v: %s", gen.KindOf(g), box, gen.Canon(g))
 	}
@@ -723,7 +777,7 @@ func checkGeneric(box orb.Bound, g orb.Geometry, qs []orb.Point, scale float64) 
 		return fmt.Errorf("clip.Geometry(%s) = %s although nothing of the input lies in the box %v", gen.KindOf(g), gen.Canon(got), box)
 	}
 	// region of the whole result: membership preserved for 2-d content
-	margin := 1e-6 * (1 + scale)
+	margin := tl.margin
 	for _, q := range qs {
 		if !allClosed(g) {
 			break
@@ -803,7 +857,7 @@ var lastCut, lastNil bool
 func checkCase(c Case) error {
 	box := c.Box.Bound()
 	g := c.G.V
-	scale := scaleOf(box, g)
+	tl := tolsOf(box, g)
 	qs := queries(box, c.QSeed, nQueries)
 	lastCut, lastNil = false, false
 	var err error
@@ -813,7 +867,7 @@ func checkCase(c Case) error {
 			return
 		}
 		var info ringInfo
-		info, err = checkRing(box, r, qs, float64(c.SplitX), float64(c.SplitY), scale)
+		info, err = checkRing(box, r, qs, float64(c.SplitX), float64(c.SplitY), tl)
 		if info.cut {
 			lastCut = true
 		}
@@ -843,5 +897,5 @@ func checkCase(c Case) error {
 	if err != nil {
 		return err
 	}
-	return checkGeneric(box, g, qs, scale)
+	return checkGeneric(box, g, qs, tl)
 }
